@@ -196,7 +196,7 @@ class BitStringEncoder(AbstractItemEncoder):
         if value.subtypeSpec:
             # padded and chunked pieces of the value computed below are
             # not values of the (size-)constrained type
-            value = value.clone(subtypeSpec=value.subtypeSpec.__class__())
+            value = value.clone(subtypeSpec=univ.BitString.subtypeSpec)
 
         valueLength = len(value)
         if valueLength % 8:
